@@ -88,7 +88,8 @@ class Timers(SM.Monitor):
             h = W.dec_header(d.data)
             my_spi = h['spi_r'] if h['flags']['initiator'] else h['spi_i']
             sa = next((s for s in ep.sas if bytes(s.my_spi).hex() == my_spi), None)
-            ev.pre['c13_target'] = (sa, h)
+            # (a cleartext IKE_SA_INIT copy that reaches an IKE_SA which already has keys is ignored: no sign of life)
+            ev.pre['c13_target'] = (sa, h, sa is not None and sa.peer_crypto is None)
 
     def post(self, sim, ev):
         w = sim.w
@@ -98,8 +99,8 @@ class Timers(SM.Monitor):
         self.note_new(sim)
         tgt = ev.pre.get('c13_target')
         # authentic arrival bookkeeping (every datagram delivered in these walks was produced by the peer or the keyed rewriter)
-        if tgt and tgt[0] is not None:
-            sa, h = tgt
+        if tgt and tgt[0] is not None and (tgt[1]['exchange'] != 34 or tgt[2]):
+            sa, h = tgt[0], tgt[1]
             self.last_auth[id(sa)] = now
             if h['flags']['response']:
                 pre_sa = pre.get(id(sa))
@@ -176,9 +177,10 @@ class Timers(SM.Monitor):
                 if idle < dpd - 1e-6:
                     sim.fail('dpd-too-early', f'dead-peer detection started {idle:.2f}s after the last authentic message; the '
                                               f'configured interval is {dpd}s')
+            if st0 != State.REK_IKE_SA_REQ_SENT and st1 == State.REK_IKE_SA_REQ_SENT:
+                sa._vf_rekey_started = True          # (also when it starts in the iteration that completes another exchange)
             if st0 == State.ESTABLISHED and st1 == State.REK_IKE_SA_REQ_SENT:
                 self.rekeys += 1
-                sa._vf_rekey_started = True
                 age = now - tc
                 if age < life - 1e-6 and not getattr(sa, '_vf_pushed', False):
                     sim.fail('ike-rekey-too-early', f'IKE_SA rekey started at age {age:.2f}s; the configured lifetime is {life}s')
@@ -280,7 +282,7 @@ def run_case(case):
                 s.fail(f'sad-not-empty-after-{"partition" if end == "partition" else "crash"}',
                        f'{t:.0f}s after the peer became unreachable endpoint {side} still has kernel SAs '
                        f'{sorted(ep.kernel.sad)[:3]} (DPD interval {cfg["dpd"]}s + retransmission budget {budget()}s)')
-            left = [q.state.name for q in ep.sas if q.state >= State.ESTABLISHED]
+            left = [q.state.name for q in ep.sas if State.ESTABLISHED <= q.state < State.REKEYED]
             if left:
                 s.fail('ike-sa-survives-dead-peer', f'{t:.0f}s after the peer became unreachable endpoint {side} still holds '
                                                     f'IKE_SAs in states {left}')
